@@ -309,4 +309,77 @@ Proof.
       rewrite sub64_ok by lia. cbn [bind]. apply Hrec; lia.
 Qed.
 
+(* ---------- spec-function lemmas ---------- *)
+
+Lemma canon_skip (pre : list (segment T)) s more : forall k a e,
+  chain a (pre ++ s :: more) -> a + lenD pre <= e ->
+  canon k (pre ++ s :: more) e = canon (k + lenN pre) (s :: more) e.
+Proof.
+  induction pre as [|x pre IH]; intros k a e Hc He.
+  - rewrite lenN_nil. cbn [app]. f_equal. lia.
+  - cbn [app] in *. destruct Hc as [Hx Hc]. rewrite lenD_cons in He.
+    destruct (pre ++ s :: more) as [|y r] eqn:E; [destruct pre; discriminate|].
+    rewrite canon_descend by lia. rewrite <- E in *.
+    rewrite (IH (k + 1) (a + seg_len x) e Hc) by lia. rewrite lenN_cons. f_equal. lia.
+Qed.
+
+(** where the canonical cursor of an offset inside [a, a + lenD ss] points *)
+Lemma canon_spec (ss : list (segment T)) : forall k a e,
+  ss <> [] -> chain a ss -> a <= e -> e <= a + lenD ss ->
+  exists i s, nth_error ss i = Some s /\ canon k ss e = (k + N.of_nat i, e) /\
+              s_abs s <= e /\ e <= s_abs s + seg_len s /\
+              (e < s_abs s + seg_len s \/ S i = length ss).
+Proof.
+  induction ss as [|s r IH]; intros k a e Hne Hc Hlo Hhi; [congruence|].
+  destruct Hc as [Ha Hc]. rewrite lenD_cons in Hhi.
+  destruct r as [|s' r'].
+  - exists O, s. cbn [nth_error canon length]. rewrite lenD_nil in Hhi.
+    repeat split; try lia. f_equal. lia.
+  - destruct (N.ltb_spec e (s_abs s + seg_len s)) as [Hlt | Hge].
+    + exists O, s. cbn [nth_error]. rewrite canon_here by lia.
+      repeat split; try lia. f_equal. lia.
+    + rewrite canon_descend by lia.
+      destruct (IH (k + 1) (a + seg_len s) e) as (i & s0 & Hn & Hcn & H1 & H2 & H3); try assumption; try lia; [discriminate|].
+      exists (S i), s0. cbn [nth_error length]. rewrite Hcn.
+      repeat split; try lia; try assumption; [f_equal; lia|].
+      cbn [length] in H3. destruct H3 as [H3 | H3]; [left; exact H3 | right; lia].
+Qed.
+
+Lemma tagged_In (ss : list (segment T)) : forall k x sg o,
+  In (x, (sg, o)) (tagged k ss) ->
+  exists i s, nth_error ss i = Some s /\ sg = k + N.of_nat i /\
+              s_abs s <= o /\ o < s_abs s + seg_len s.
+Proof.
+  induction ss as [|s r IH]; intros k x sg o H; cbn [tagged] in H; [contradiction|].
+  apply in_app_or in H. destruct H as [H | H].
+  - apply tag_from_In in H. exists O, s. cbn [nth_error]. unfold seg_len. repeat split; lia.
+  - apply IH in H. destruct H as (i & s0 & Hn & -> & H1 & H2).
+    exists (S i), s0. cbn [nth_error]. repeat split; try assumption; lia.
+Qed.
+
+Lemma Nseq_skipn k : forall a m, skipn k (Nseq a m) = Nseq (a + N.of_nat k) (m - k).
+Proof.
+  induction k as [|k IH]; intros a m.
+  - cbn [skipn]. rewrite Nat.sub_0_r. f_equal. lia.
+  - destruct m as [|m]; cbn [Nseq skipn Nat.sub]; [reflexivity|]. rewrite IH. f_equal. lia.
+Qed.
+
+Lemma Nseq_firstn k : forall a m, firstn k (Nseq a m) = Nseq a (Nat.min k m).
+Proof.
+  induction k as [|k IH]; intros a m; [reflexivity|].
+  destruct m as [|m]; cbn [Nseq firstn Nat.min]; [reflexivity|]. now rewrite IH.
+Qed.
+
+Lemma firstn_add_skip {A} (W : list A) : forall a b,
+  firstn (a + b) W = firstn a W ++ firstn b (skipn (length (firstn a W)) W).
+Proof.
+  induction W as [|x W IH]; intros a b.
+  - destruct a; destruct b; reflexivity.
+  - destruct a as [|a]; cbn [Nat.add firstn length skipn app]; [reflexivity|]. now rewrite IH.
+Qed.
+
+Lemma skipn_app_exact {A} (X Y : list A) n : (length X <= n)%nat ->
+  skipn n (X ++ Y) = skipn (n - length X) Y.
+Proof. intros H. rewrite skipn_app. rewrite skipn_all2 by lia. reflexivity. Qed.
+
 End ReadProofs.
